@@ -111,15 +111,19 @@ def run_driver(pid, rel, o, res):
     try:
         wit = os.path.join(work, 'witness.json')
         json.dump({"label": o.get("label"), "trace": o.get("trace") or {}}, open(wit, 'w'))
-        exe = os.path.join(work, 'drv')
         lib = build_lib()
-        cmd = ['g++', '-std=c++14', '-O0', '-DNDEBUG', '-w', '-I', os.path.join(REPO, 'include'), '-I', os.path.join(VERIF, 'replay'),
-               os.path.join(VERIF, 'replay', ent["driver"]), lib, '-lboost_system', '-lpthread', '-o', exe]
-        p = subprocess.run(cmd, stdout=subprocess.PIPE, stderr=subprocess.STDOUT, timeout=600)
-        if p.returncode != 0:
-            return False, "driver build failed: " + p.stdout.decode()[-800:]
+        # the driver executable is kept next to the library it was linked against (same content hash of /repo's sources)
+        exe = os.path.join(os.path.dirname(lib), 'drv_' + os.path.splitext(ent["driver"])[0])
+        drv_src = os.path.join(VERIF, 'replay', ent["driver"])
+        if not (os.path.exists(exe) and os.path.getmtime(exe) >= max(os.path.getmtime(drv_src), os.path.getmtime(os.path.join(VERIF, 'replay', 'access.hpp')))):
+            cmd = ['g++', '-std=c++14', '-O0', '-DNDEBUG', '-w', '-I', os.path.join(REPO, 'include'), '-I', os.path.join(VERIF, 'replay'),
+                   drv_src, lib, '-lboost_system', '-lpthread', '-o', exe + '.tmp']
+            p = subprocess.run(cmd, stdout=subprocess.PIPE, stderr=subprocess.STDOUT, timeout=600)
+            if p.returncode != 0:
+                return False, "driver build failed: " + p.stdout.decode()[-800:]
+            os.replace(exe + '.tmp', exe)
         wrapper = ent.get("wrapper", {}).get(labs[0].split('.')[0] + '.' + labs[0].split('.')[1] if '.' in labs[0] else labs[0], [])
-        p = subprocess.run(wrapper + [exe, wit, labs[0], spec.cname], stdout=subprocess.PIPE, stderr=subprocess.STDOUT, timeout=600)
+        p = subprocess.run(wrapper + [exe, wit, labs[0], spec.cname], stdout=subprocess.PIPE, stderr=subprocess.STDOUT, timeout=180)
         out = p.stdout.decode()[-2000:]
         # driver protocol: exit 3 = clause violated natively (confirmed); 0 = clause holds natively; other = could not construct
         if p.returncode == 3:
